@@ -113,6 +113,9 @@ class KernelProp(Prop):
                                ("manual", "enter:by_hand"), ("late", "inject:called_before_types_exist")):
                 if op.get(flag) not in (None, False):
                     f.add(name)
+            if op.get("cancelAt") is not None and any(o["op"] == "addtd" and o["cb"]["id"] == op["cancelAt"] and not o["cb"]["async"]
+                                                      for o in case["ops"]):
+                f.add("exit:scope_cancelled_by_a_synchronous_callback")
             if op["op"] == "inject" and "fn" in op and any(o is not op and o.get("fn") == op["fn"] for o in case["ops"]):
                 f.add("inject:function_called_again")
         f.add("backend_" + case.get("backend", "asyncio"))
